@@ -17,7 +17,6 @@ def contracted(out, name, pdf):
 
 def scan(chk, r, cases, ratios, max_pto):
     pdf = cards.ToyPDF()
-    grid = cards.mixed_grid(12, 10)
     expanded = []
     for case in cases:
         opts = case[4] if len(case) > 4 else {}
@@ -29,6 +28,8 @@ def scan(chk, r, cases, ratios, max_pto):
     for case in expanded:
         process, kind, fl, proj = case[:4]
         opts = case[4] if len(case) > 4 else {}
+        grid = cards.mixed_grid(12, 10) if not opts.get("small_grid") else cards.mixed_grid(5, 5, 1e-2, 0.2)
+        pto_here = opts.get("pto", max_pto)
         x = float(opts.get("x", r.choice([0.05, 0.1, 0.3])))
         if fl in ("light", "total"):
             th_kw = dict(NfFF=5, mt=MH)  # only the top is massive; it plays the heavy quark
@@ -47,7 +48,7 @@ def scan(chk, r, cases, ratios, max_pto):
                 Q2 = float(ratio * MH * MH)
                 d = {}
                 for fns in ("FFNS", "FFN0"):
-                    out = realrun.run(cards.theory(PTO=max_pto, FNS=fns, **th_kw), cards.obs({name: [dict(x=x, Q2=Q2)]}, prDIS=process, ProjectileDIS=proj, interpolation_xgrid=grid))
+                    out = realrun.run(cards.theory(PTO=pto_here, FNS=fns, IC=opts.get("ic", 1), **th_kw), cards.obs({name: [dict(x=x, Q2=Q2)]}, prDIS=process, ProjectileDIS=proj, interpolation_xgrid=grid))
                     d[fns] = contracted(out, name, pdf)
                 for k in d["FFNS"]:
                     if k[2] == 0 and k[3] == 0:
@@ -68,11 +69,17 @@ def scan(chk, r, cases, ratios, max_pto):
             # floor: accuracy of the quadrature / interpolation of the contraction itself (measured
             # on the pinned tree: up to 6e-5 at the lowest grid node); exponent 0.6 leaves room for
             # the logarithms that multiply m2/Q2
-            floor = 2e-4
+            # at NNLO the massive coefficient functions come from LeProHQ grids: their own accuracy at
+            # Q2/m2 >= 1e4 is at the per-cent level (non-monotonic series seen on the pinned tree)
+            floor = 2e-4 if k[0] <= 1 else 2e-2
             bound = max(e0 * (r0 / r1) ** 0.6, floor)
-            ok = e1 <= bound
+            # a term that is itself mass-suppressed (FL at LO: FFN0 is exactly 0, FFNS ~ m2/Q2) never
+            # decays *relative to itself*: there the absolute difference must vanish like the power
+            # (only when the FFNS term itself, s, falls like that power: otherwise the relative test stands)
+            abs_ok = abs(d1) <= abs(d0) * (r0 / r1) ** 0.6 and s1 <= s0 * (r0 / r1) ** 0.6
+            ok = e1 <= bound or abs_ok
             d0 = e0
-            sample = dict(obs=name, process=process, projectile=proj, order=list(k), x=x, series=[(a, b, c) for a, b, c in ser], rel_first=e0, rel_last=e1, bound=bound)
+            sample = dict(obs=name, process=process, projectile=proj, IC=opts.get("ic", 1), order=list(k), x=x, series=[(a, b, c) for a, b, c in ser], rel_first=e0, rel_last=e1, bound=bound)
             chk.search_case("ffns_minus_ffn0_decays", ok, what=f"{name} {process} order {k[0]}: FFNS-FFN0 does not vanish like a power of m2/Q2", data=sample, sample=sample, nontrivial=abs(d0) > floor)
 
 
@@ -119,10 +126,14 @@ def run(tier):
     more = [("CC", "FL", "charm", "neutrino"), ("EM", "FL", "charm", "electron"), ("NC", "F2", "bottom", "positron"), ("EM", "F2", "light", "electron"), ("EM", "F2", "total", "electron"), ("CC", "F2", "bottom", "electron"), ("NC", "g1", "charm", "electron"), ("CC", "F2", "total", "neutrino")]
     special = [("EM", "F2", "bottom", "electron", dict(second=True)), ("EM", "F2", "charm", "electron", dict(x=1e-3, ratios=[1e3, 1e6]))]
     if thorough:
-        scan(chk, r, quick_cases + more, [1e2, 1e3, 1e4, 1e5], 2)
+        scan(chk, r, quick_cases + more + [("EM", "F2", "charm", "electron", dict(ic=0)), ("CC", "F2", "charm", "antineutrino", dict(ic=0)), ("NC", "F2", "total", "electron", dict(ic=0))], [1e2, 1e3, 1e4, 1e5], 2)
         scan(chk, r, special + [("CC", "F2", "bottom", "neutrino", dict(second=True)), ("EM", "FL", "charm", "electron", dict(x=1e-3, ratios=[1e3, 1e4, 1e5, 1e6])), ("EM", "F2", "charm", "electron", dict(x=1e-2, ratios=[1e3, 1e6]))], [1e2, 1e3, 1e4, 1e5, 1e6], 1)
     else:
-        scan(chk, r, quick_cases + special, [1e2, 1e4], 1)
+        # theory flag IC=0 (no intrinsic charm in the PDF fit) must not change which kernels exist on
+        # either side; one NNLO photon-exchange case on a small grid (the light-quark initiated
+        # heavy-quark loops first appear at a_s^2)
+        extra = [("EM", "F2", "charm", "electron", dict(ic=0, x=0.1)), ("CC", "F3", "charm", "neutrino", dict(ic=0, x=0.1)), ("EM", "F2", "light", "electron", dict(pto=2, small_grid=True, x=0.1)), ("NC", "F2", "light", "electron", dict(pto=2, small_grid=True, x=0.3))]
+        scan(chk, r, quick_cases + special + extra, [1e2, 1e4], 1)
     chk.level = "proof"
     chk.assumptions += [
         "PARTIAL: Lean proves that FFN0 and FFNS kernels carry identical parton weights (the limit reduces to the partonic coefficient functions); the decay of C_massive - C_asymptotic for LeProHQ/adani/closed-form coefficients is observed on real runs, not proved",
